@@ -984,6 +984,30 @@ fn goldens(args: &util::Args) {
     print!("{}", out);
 }
 
+/// `gv c11 names`: CST->AST lowering commutes with renaming a local binder that is spelled like a
+/// package-level name (the catalogue of harness/src/namecat.rs; every single cell in the thorough tier)
+fn names(args: &util::Args) {
+    util::quiet_panics();
+    let dir = util::scratch_dir("c11n");
+    let mut out = String::new();
+    let mut cases = crate::namecat::catalogue(args.seed, args.tier == "thorough");
+    if args.tier == "thorough" {
+        cases.extend(crate::namecat::single_cells());
+    }
+    for c in &cases {
+        let cells = c.cells.iter().map(|(u, b)| format!("{}/{}", u, b)).collect::<Vec<_>>().join(" ");
+        let (verdict, detail) = match crate::namecat::lowering_alpha(c, &dir) {
+            Ok(n) => ("ok", n.to_string()),
+            Err(e) => ("diff", e),
+        };
+        let text: String = c.files.iter().map(|(r, t)| format!("//// file: {}\n{}", r, t)).collect();
+        writeln!(out, "{}\tNAMES\t{}\t{}\t{}\t{}\t{}\t{}", c.id, verdict, crate::sexp::esc_line(&detail), c.name, c.fresh, cells, crate::sexp::esc_line(&text)).unwrap();
+    }
+    let _ = std::fs::remove_dir_all(&dir);
+    let _ = std::fs::create_dir_all(&args.out);
+    std::fs::write(args.out.join("c11.names.tsv"), out).unwrap();
+}
+
 pub fn main(args: &util::Args) {
     match args.rest.first().map(|s| s.as_str()) {
         Some("gen") => gen_trees(args),
@@ -991,6 +1015,7 @@ pub fn main(args: &util::Args) {
         Some("lits") => lits(args),
         Some("strs") => strs(args),
         Some("goldens") => goldens(args),
+        Some("names") => names(args),
         _ => {
             eprintln!("usage: gv c11 <gen|parse --file F|lits|goldens>");
             std::process::exit(2);
